@@ -660,4 +660,434 @@ theorem tupleScalar_no_trap (peaks : List Int) (inter : Option (List Int × List
     (tupleScalar peaks inter coords).isSome :=
   tupleScalarGo_no_trap inter coords hcoords hinter peaks hpeaks 0 65536
 
+/-! ## read-fonts/src/tables/fvar.rs — `VariationAxisRecord::normalize` -/
+
+theorem sat_i32_range (x : Int) : I32 (i32.sat x) := by
+  unfold I32; simp only [IntTy.sat, i32]
+  by_cases h1 : x < -2147483648
+  · simp [h1]
+  · by_cases h2 : x > 2147483647
+    · simp [h1, h2]
+    · simp [h1, h2]; omega
+
+/-- `normalize`: saturating subtractions, the (total) `Div`, the wrapping `Neg`: no trap for any
+axis record and any user value. -/
+theorem normalizeAxis_no_trap (minV defV maxV value : Int) : (normalizeAxis minV defV maxV value).isSome := by
+  have hr : ∀ a b c d, (normalizeRatio a b c d).isSome := by
+    intro a b c d
+    unfold normalizeRatio
+    split
+    · obtain ⟨q, hq⟩ := Option.isSome_iff_exists.mp
+        (fxDiv_no_trap _ _ (sat_i32_range (b - d)) (sat_i32_range (b - a)))
+      simp only [IntTy.saturatingSub, hq, Option.bind_eq_bind, Option.bind_some]; rfl
+    · split
+      · exact fxDiv_no_trap _ _ (sat_i32_range _) (sat_i32_range _)
+      · rfl
+  obtain ⟨r, hr'⟩ := Option.isSome_iff_exists.mp (hr minV defV (imax maxV minV) (clampI value minV (imax maxV minV)))
+  simp [normalizeAxis, hr', fxNeg]
+
+theorem axisNormalize_no_trap (minV defV maxV value : Int) : (axisNormalize minV defV maxV value).isSome := by
+  obtain ⟨r, hr⟩ := Option.isSome_iff_exists.mp (normalizeAxis_no_trap minV defV maxV value)
+  have := fxToF2Dot14_no_trap r
+  simp [axisNormalize, hr, this]
+
+example : normalizeAxis (100 * 65536) (400 * 65536) (900 * 65536) (650 * 65536) = some 32768 := by decide
+example : normalizeAxis (-2147483648) 0 2147483647 (-2147483648) = some (-65536) := by decide
+
+/-! ## read-fonts/src/tables/cmap.rs — `Cmap4` -/
+
+def U16 (x : Int) : Prop := 0 ≤ x ∧ x ≤ 65535
+
+/-- the glyph id array index: `codepoint - start_code` is a raw u16 subtraction; both callers
+(`map_codepoint`'s binary search and the iterator) only pass `start_code ≤ codepoint`. -/
+theorem cmap4Offset_no_trap (ro cp st n i : Int) (hro : U16 ro) (hcp : U16 cp) (hst : 0 ≤ st ∧ st ≤ cp)
+    (hi : 0 ≤ i ∧ i < n) (hn : n ≤ 65535) : (cmap4Offset ro cp st n i).isSome := by
+  unfold U16 at hro hcp
+  have hb := tdiv_bounds (n := ro) (d := 2) (by omega)
+  have h1 : usize.div ro 2 = some (Int.tdiv ro 2) := by
+    simp only [IntTy.div]; rw [if_neg (by omega)]; apply chk_usize; omega
+  have h2 : u16.sub cp st = some (cp - st) := by simp only [IntTy.sub]; apply chk_u16; omega
+  have h3 : usize.add (Int.tdiv ro 2) (cp - st) = some (Int.tdiv ro 2 + (cp - st)) := by
+    simp only [IntTy.add]; apply chk_usize; omega
+  have h4 : usize.sub n i = some (n - i) := by simp only [IntTy.sub]; apply chk_usize; omega
+  simp [cmap4Offset, h1, h2, h3, h4]
+/-- witness of the excluded case (no caller reaches it) -/
+theorem cmap4Offset_traps_at : cmap4Offset 2 0 1 1 0 = none := by decide
+
+theorem cmap4AddDelta_no_trap (x d : Int) (hx : U16 x) (hd : I16 d) : (cmap4AddDelta x d).isSome := by
+  unfold U16 at hx; unfold I16 at hd
+  have : i32.add x d = some (x + d) := by simp only [IntTy.add]; apply chk_i32; omega
+  simp [cmap4AddDelta, this]
+
+theorem getElem?_all {P : Int → Prop} (l : List Int) (h : ∀ c ∈ l, P c) (i : Nat) (v : Int)
+    (hv : l[i]? = some v) : P v := h v (List.mem_of_getElem? hv)
+
+theorem cmap4Lookup_no_trap (deltas ros gids : List Int) (cp i st : Int)
+    (hd : ∀ c ∈ deltas, I16 c) (hr : ∀ c ∈ ros, U16 c) (hg : ∀ c ∈ gids, U16 c)
+    (hcp : U16 cp) (hst : 0 ≤ st ∧ st ≤ cp) (hi : 0 ≤ i) (hlen : ros.length ≤ 65535) :
+    (cmap4Lookup deltas ros gids cp i st).isSome := by
+  unfold cmap4Lookup
+  split
+  · rename_i d ro hde hro
+    have hdI := getElem?_all deltas hd _ _ hde
+    have hroU := getElem?_all ros hr _ _ hro
+    have hlt : i.toNat < ros.length := by
+      have := List.getElem?_eq_some_iff.mp hro; exact this.1
+    split
+    · obtain ⟨v, hv⟩ := Option.isSome_iff_exists.mp (cmap4AddDelta_no_trap cp d hcp hdI); simp [hv]
+    · obtain ⟨off, hoff⟩ := Option.isSome_iff_exists.mp
+        (cmap4Offset_no_trap ro cp st ros.length i hroU hcp hst ⟨hi, by omega⟩ (by omega))
+      simp only [hoff]
+      split
+      · rfl
+      · rename_i gid hgid
+        have hgU := getElem?_all gids hg _ _ hgid
+        split
+        · obtain ⟨v, hv⟩ := Option.isSome_iff_exists.mp (cmap4AddDelta_no_trap gid d hgU hdI); simp [hv]
+        · rfl
+  · rfl
+
+/-- `Cmap4::map_codepoint`: the binary search indices stay below the segment count and the lookup
+precondition `start_code ≤ codepoint` is established by the comparison: no trap for any subtable
+arrays and any 16-bit code point. -/
+theorem cmap4MapGo_no_trap (starts ends deltas ros gids : List Int) (cp : Int)
+    (hs : ∀ c ∈ starts, U16 c) (he : ∀ c ∈ ends, U16 c)
+    (hd : ∀ c ∈ deltas, I16 c) (hr : ∀ c ∈ ros, U16 c) (hg : ∀ c ∈ gids, U16 c)
+    (hcp : U16 cp) (hlen : ros.length ≤ 65535) (fuel : Nat) (lo hi : Int)
+    (hlo : 0 ≤ lo) (hhi : hi ≤ 65535) :
+    (cmap4MapGo starts ends deltas ros gids cp fuel lo hi).isSome := by
+  induction fuel generalizing lo hi with
+  | zero => rfl
+  | succ f ih =>
+    unfold cmap4MapGo
+    split
+    · rename_i hlt
+      have h1 : usize.add lo hi = some (lo + hi) := by simp only [IntTy.add]; apply chk_usize; omega
+      have hb := tdiv_bounds (n := lo + hi) (d := 2) (by omega)
+      have hq : Int.tdiv (lo + hi) 2 = (lo + hi) / 2 := Int.tdiv_eq_ediv_of_nonneg (by omega)
+      have h2 : usize.div (lo + hi) 2 = some ((lo + hi) / 2) := by
+        simp only [IntTy.div]; rw [if_neg (by omega), hq]; apply chk_usize; omega
+      simp only [h1, h2]
+      split
+      · rfl
+      · rename_i st hst
+        have hstU := getElem?_all starts hs _ _ hst
+        unfold U16 at hstU
+        split
+        · exact ih lo ((lo + hi) / 2) hlo (by omega)
+        · split
+          · rfl
+          · split
+            · have h3 : usize.add ((lo + hi) / 2) 1 = some ((lo + hi) / 2 + 1) := by
+                simp only [IntTy.add]; apply chk_usize; omega
+              simp only [h3]
+              exact ih ((lo + hi) / 2 + 1) hi (by omega) hhi
+            · exact cmap4Lookup_no_trap deltas ros gids cp _ st hd hr hg hcp ⟨hstU.1, by omega⟩
+                (by omega) hlen
+    · rfl
+
+theorem cmap4Map_no_trap (sc2 : Int) (starts ends deltas ros gids : List Int) (cp : Int)
+    (hsc : U16 sc2) (hs : ∀ c ∈ starts, U16 c) (he : ∀ c ∈ ends, U16 c)
+    (hd : ∀ c ∈ deltas, I16 c) (hr : ∀ c ∈ ros, U16 c) (hg : ∀ c ∈ gids, U16 c)
+    (hcp : U16 cp) (hlen : ros.length ≤ 65535) :
+    (cmap4Map sc2 starts ends deltas ros gids cp).isSome := by
+  unfold U16 at hsc
+  have hb := tdiv_bounds (n := sc2) (d := 2) (by omega)
+  have h2 : usize.div sc2 2 = some (Int.tdiv sc2 2) := by
+    simp only [IntTy.div]; rw [if_neg (by omega)]; apply chk_usize; omega
+  simp only [cmap4Map, h2]
+  exact cmap4MapGo_no_trap starts ends deltas ros gids cp hs he hd hr hg hcp hlen 40 0 _ (by omega) (by omega)
+
+example : cmap4Map 4 [65, 65535] [90, 65535] [-64, 1] [0, 0] [] 66 = some (some 2) := by decide
+
+/-! ## read-fonts/src/tables/glyf.rs — simple glyph decoding -/
+
+/-- one accumulation step of `resolve_coords_len`: for at most 65535 points in total the u32
+lengths cannot overflow (invariant `len + 2·flags_left ≤ 2·65535`). -/
+theorem coordsLenStep_no_trap (xs xl ys yl rep xLen yLen fl : Int)
+    (hx : (xs = 0 ∨ xs = 1) ∧ (xl = 0 ∨ xl = 1) ∧ xs + xl ≤ 1)
+    (hy : (ys = 0 ∨ ys = 1) ∧ (yl = 0 ∨ yl = 1) ∧ ys + yl ≤ 1)
+    (hrep : 1 ≤ rep ∧ rep ≤ fl) (hfl : fl ≤ 65535)
+    (hxl : 0 ≤ xLen ∧ xLen + 2 * fl ≤ 131070) (hyl : 0 ≤ yLen ∧ yLen + 2 * fl ≤ 131070) :
+    ∃ x2 y2 fl2, coordsLenStep xs xl ys yl rep xLen yLen fl = some (x2, y2, fl2) ∧
+      fl2 = fl - rep ∧ (0 ≤ x2 ∧ x2 + 2 * fl2 ≤ 131070) ∧ (0 ≤ y2 ∧ y2 + 2 * fl2 ≤ 131070) := by
+  have key : ∀ (a b len : Int), (a = 0 ∨ a = 1) → (b = 0 ∨ b = 1) → a + b ≤ 1 →
+      (0 ≤ len ∧ len + 2 * fl ≤ 131070) →
+      ∃ r, (do let p ← u32.mul a rep; let l1 ← u32.add len p; let q0 ← u32.mul b rep
+               let q ← u32.mul q0 2; u32.add l1 q) = some r ∧ 0 ≤ r ∧ r + 2 * (fl - rep) ≤ 131070 := by
+    intro a b len ha hb hab hlen
+    rcases ha with ha | ha <;> rcases hb with hb | hb <;> subst ha <;> subst hb
+    · refine ⟨len, ?_, by omega, by omega⟩
+      have e1 : u32.add len 0 = some len := by simp only [IntTy.add, Int.add_zero]; apply chk_u32; omega
+      simp [IntTy.mul, chk_u32, e1]
+    · refine ⟨len + rep * 2, ?_, by omega, by omega⟩
+      have e0 : u32.chk 0 = some 0 := chk_u32 (by omega)
+      have e1 : u32.add len 0 = some len := by simp only [IntTy.add, Int.add_zero]; apply chk_u32; omega
+      have e2 : u32.chk rep = some rep := chk_u32 (by omega)
+      have e3 : u32.chk (rep * 2) = some (rep * 2) := chk_u32 (by omega)
+      have e4 : u32.add len (rep * 2) = some (len + rep * 2) := by
+        simp only [IntTy.add]; apply chk_u32; omega
+      simp [IntTy.mul, e0, e1, e2, e3, e4]
+    · refine ⟨len + rep, ?_, by omega, by omega⟩
+      have e0 : u32.chk 0 = some 0 := chk_u32 (by omega)
+      have e2 : u32.chk rep = some rep := chk_u32 (by omega)
+      have e4 : u32.add len rep = some (len + rep) := by simp only [IntTy.add]; apply chk_u32; omega
+      have e5 : u32.add (len + rep) 0 = some (len + rep) := by
+        simp only [IntTy.add, Int.add_zero]; apply chk_u32; omega
+      simp [IntTy.mul, e0, e2, e4, e5]
+    · omega
+  obtain ⟨x2, hx2, hx2r⟩ := key xs xl xLen hx.1 hx.2.1 hx.2.2 hxl
+  obtain ⟨y2, hy2, hy2r⟩ := key ys yl yLen hy.1 hy.2.1 hy.2.2 hyl
+  have hfl2 : u32.sub fl rep = some (fl - rep) := by simp only [IntTy.sub]; apply chk_u32; omega
+  refine ⟨x2, y2, fl - rep, ?_, rfl, hx2r, hy2r⟩
+  simp only [Option.bind_eq_bind] at hx2 hy2
+  unfold coordsLenStep
+  simp only [Option.bind_eq_bind]
+  cases h1 : u32.mul xs rep with
+  | none => simp [h1] at hx2
+  | some a =>
+    simp only [h1, Option.bind_some] at hx2 ⊢
+    cases h2 : u32.add xLen a with
+    | none => simp [h2] at hx2
+    | some x1 =>
+      simp only [h2, Option.bind_some] at hx2 ⊢
+      cases h3 : u32.mul xl rep with
+      | none => simp [h3] at hx2
+      | some b0 =>
+        simp only [h3, Option.bind_some] at hx2 ⊢
+        cases h4 : u32.mul b0 2 with
+        | none => simp [h4] at hx2
+        | some b =>
+          simp only [h4, Option.bind_some] at hx2 ⊢
+          simp only [hx2, Option.bind_some]
+          cases g1 : u32.mul ys rep with
+          | none => simp [g1] at hy2
+          | some c =>
+            simp only [g1, Option.bind_some] at hy2 ⊢
+            cases g2 : u32.add yLen c with
+            | none => simp [g2] at hy2
+            | some y1 =>
+              simp only [g2, Option.bind_some] at hy2 ⊢
+              cases g3 : u32.mul yl rep with
+              | none => simp [g3] at hy2
+              | some d0 =>
+                simp only [g3, Option.bind_some] at hy2 ⊢
+                cases g4 : u32.mul d0 2 with
+                | none => simp [g4] at hy2
+                | some d =>
+                  simp only [g4, Option.bind_some] at hy2 ⊢
+                  simp [hy2, hfl2]
+
+/-- one loop iteration of `resolve_coords_len` keeps the invariant and cannot trap -/
+theorem resolveByte_no_trap (f : Int) (rest : List Int) (hrest : ∀ b ∈ rest, 0 ≤ b ∧ b ≤ 255)
+    (xLen yLen fl : Int) (hfl : fl ≤ 65535)
+    (hxl : 0 ≤ xLen ∧ xLen + 2 * fl ≤ 131070) (hyl : 0 ≤ yLen ∧ yLen + 2 * fl ≤ 131070) :
+    resolveByte f rest xLen yLen fl = some none ∨
+    ∃ x2 y2 fl2 rest' c, resolveByte f rest xLen yLen fl = some (some (x2, y2, fl2, rest', c)) ∧
+      (∀ b ∈ rest', 0 ≤ b ∧ b ≤ 255) ∧ fl2 ≤ 65535 ∧
+      (0 ≤ x2 ∧ x2 + 2 * fl2 ≤ 131070) ∧ (0 ≤ y2 ∧ y2 + 2 * fl2 ≤ 131070) := by
+  unfold resolveByte
+  simp only []
+  split
+  · exact Or.inl rfl
+  · rename_i r hr
+    have hrR : 0 ≤ r ∧ r ≤ 255 := by
+      split at hr
+      · cases rest with
+        | nil => simp at hr
+        | cons a t => simp at hr; subst hr; exact hrest a (by simp)
+      · simp at hr; omega
+    have hadd : u32.add r 1 = some (r + 1) := by simp only [IntTy.add]; apply chk_u32; omega
+    split
+    · rename_i hnone
+      split at hnone
+      · simp [hadd] at hnone
+      · simp at hnone
+    · rename_i repeats hrep
+      have hrepR : 1 ≤ repeats ∧ repeats ≤ 256 := by
+        split at hrep
+        · simp [hadd] at hrep; omega
+        · simp at hrep; omega
+      split
+      · exact Or.inl rfl
+      · rename_i hle
+        have hx : ((if flagBit f 1 then (1 : Int) else 0) = 0 ∨ (if flagBit f 1 then (1 : Int) else 0) = 1) ∧
+            ((if ¬ flagBit f 1 ∧ ¬ flagBit f 4 then (1 : Int) else 0) = 0 ∨
+             (if ¬ flagBit f 1 ∧ ¬ flagBit f 4 then (1 : Int) else 0) = 1) ∧
+            (if flagBit f 1 then (1 : Int) else 0) + (if ¬ flagBit f 1 ∧ ¬ flagBit f 4 then (1 : Int) else 0) ≤ 1 := by
+          cases flagBit f 1 <;> cases flagBit f 4 <;> simp
+        have hy : ((if flagBit f 2 then (1 : Int) else 0) = 0 ∨ (if flagBit f 2 then (1 : Int) else 0) = 1) ∧
+            ((if ¬ flagBit f 2 ∧ ¬ flagBit f 5 then (1 : Int) else 0) = 0 ∨
+             (if ¬ flagBit f 2 ∧ ¬ flagBit f 5 then (1 : Int) else 0) = 1) ∧
+            (if flagBit f 2 then (1 : Int) else 0) + (if ¬ flagBit f 2 ∧ ¬ flagBit f 5 then (1 : Int) else 0) ≤ 1 := by
+          cases flagBit f 2 <;> cases flagBit f 5 <;> simp
+        obtain ⟨x2, y2, fl2, hstep, hfl2, hx2, hy2⟩ :=
+          coordsLenStep_no_trap _ _ _ _ repeats xLen yLen fl hx hy ⟨hrepR.1, by omega⟩ hfl hxl hyl
+        refine Or.inr ⟨x2, y2, fl2, (if flagBit f 3 = true then rest.tail else rest),
+          (if flagBit f 3 = true then 2 else 1), ?_, ?_, by omega, hx2, hy2⟩
+        · simp only [hstep]
+        · intro b hbm
+          split at hbm
+          · exact hrest b (List.mem_of_mem_tail hbm)
+          · exact hrest b hbm
+
+/-- `resolve_coords_len`: for any flag bytes and any point count (a u16) no u32 operation traps. -/
+theorem resolveCoordsLenGo_no_trap (fuel : Nat) (bytes : List Int) (hb : ∀ b ∈ bytes, 0 ≤ b ∧ b ≤ 255)
+    (pos xLen yLen fl : Int) (hfl : fl ≤ 65535)
+    (hxl : 0 ≤ xLen ∧ xLen + 2 * fl ≤ 131070) (hyl : 0 ≤ yLen ∧ yLen + 2 * fl ≤ 131070) :
+    (resolveCoordsLenGo fuel bytes pos xLen yLen fl).isSome := by
+  induction fuel generalizing bytes pos xLen yLen fl with
+  | zero => rfl
+  | succ n ih =>
+    unfold resolveCoordsLenGo
+    split
+    · rfl
+    · cases bytes with
+      | nil => rfl
+      | cons f rest =>
+        have hrest : ∀ b ∈ rest, 0 ≤ b ∧ b ≤ 255 := fun b h => hb b (by simp [h])
+        rcases resolveByte_no_trap f rest hrest xLen yLen fl hfl hxl hyl with h | h
+        · simp only [h]; rfl
+        · obtain ⟨x2, y2, fl2, rest', c, h, hr', hfl2, hx2, hy2⟩ := h
+          simp only [h]
+          exact ih rest' hr' _ x2 y2 fl2 hfl2 hx2 hy2
+
+theorem resolveCoordsLen_no_trap (bytes : List Int) (hb : ∀ b ∈ bytes, 0 ≤ b ∧ b ≤ 255)
+    (total : Int) (ht : 0 ≤ total ∧ total ≤ 65535) : (resolveCoordsLen bytes total).isSome :=
+  resolveCoordsLenGo_no_trap _ bytes hb 0 0 0 total ht.2 (by omega) (by omega)
+
+example : resolveCoordsLen [0x09, 0xFF, 0x37] 257 = some (some (3, 513, 513)) := by decide
+
+/-- `PointIter::advance_flags`: `repeat as u16 + 1` and `flag_repeats -= 1` -/
+theorem advanceFlagsCount_no_trap (fr rb : Int) (hfr : 0 ≤ fr ∧ fr ≤ 256) (hrb : 0 ≤ rb ∧ rb ≤ 255) :
+    (advanceFlagsCount fr rb).isSome := by
+  unfold advanceFlagsCount
+  by_cases h : fr = 0
+  · have e1 : u16.add rb 1 = some (rb + 1) := by simp only [IntTy.add]; apply chk_u16; omega
+    have e2 : u16.sub (rb + 1) 1 = some (rb + 1 - 1) := by simp only [IntTy.sub]; apply chk_u16; omega
+    simp [h, e1, e2]
+  · have e2 : u16.sub fr 1 = some (fr - 1) := by simp only [IntTy.sub]; apply chk_u16; omega
+    simp [h, e2]
+
+/-- point coordinate accumulation: short deltas are bytes (their negation cannot overflow), the
+running coordinate is `wrapping_add`. -/
+theorem pointIterAxis_no_trap (short same : Bool) (raw cur : Int)
+    (h : short = true → 0 ≤ raw ∧ raw ≤ 255) : (pointIterAxis short same raw cur).isSome := by
+  unfold pointIterAxis
+  cases short <;> cases same <;> simp
+  have := h rfl
+  have e : i16.neg raw = some (-raw) := by simp only [IntTy.neg]; apply chk_i16; omega
+  simp [e]
+theorem readFastAxis_no_trap (short same : Bool) (raw cur : Int)
+    (h : short = true → 0 ≤ raw ∧ raw ≤ 255) : (readFastAxis short same raw cur).isSome := by
+  unfold readFastAxis
+  cases short <;> cases same <;> simp
+  have := h rfl
+  have e : i32.neg raw = some (-raw) := by simp only [IntTy.neg]; apply chk_i32; omega
+  simp [e]
+
+theorem decodeAxis_no_trap (step : Bool → Bool → Int → Int → Option Int)
+    (hstep : ∀ sh sa raw cur, (sh = true → 0 ≤ raw ∧ raw ≤ 255) → (step sh sa raw cur).isSome)
+    (pts : List (Bool × Bool × Int)) (hp : ∀ p ∈ pts, p.1 = true → 0 ≤ p.2.2 ∧ p.2.2 ≤ 255) (cur : Int) :
+    (decodeAxis step pts cur).isSome := by
+  induction pts generalizing cur with
+  | nil => rfl
+  | cons p rest ih =>
+    obtain ⟨sh, sa, raw⟩ := p
+    obtain ⟨c, hc⟩ := Option.isSome_iff_exists.mp (hstep sh sa raw cur (hp (sh, sa, raw) (by simp)))
+    have := ih (fun q hq => hp q (by simp [hq])) c
+    obtain ⟨l, hl⟩ := Option.isSome_iff_exists.mp this
+    simp [decodeAxis, hc, hl]
+
+example : decodeAxis pointIterAxis [(true, false, 255), (false, false, -32768)] 0 = some [-255, 32513] := by
+  decide
+
+/-! ## cvar deltas and the hinting CVT -/
+
+theorem fxFromI32_range (d v : Int) (h : fxFromI32 d = some v) : I32 v := by
+  simp only [fxFromI32, shl_i32_16] at h
+  cases h; exact wrap_i32_range _
+
+/-- `Cvar::deltas` (after fix be803b9): `wrapping_add` of `Fixed::from_i32(delta) * scalar`. -/
+theorem cvarAccum_no_trap (terms : List (Int × Int)) (h : ∀ t ∈ terms, I32 t.2) (acc : Int) :
+    (cvarAccum terms acc).isSome := by
+  induction terms generalizing acc with
+  | nil => rfl
+  | cons t rest ih =>
+    obtain ⟨d, sc⟩ := t
+    obtain ⟨fd, hfd⟩ := Option.isSome_iff_exists.mp (fxFromI32_no_trap d)
+    obtain ⟨m, hm⟩ := Option.isSome_iff_exists.mp
+      (fxMul_no_trap fd sc (fxFromI32_range d fd hfd) (h (d, sc) (by simp)))
+    simp only [cvarAccum, hfd, hm]
+    exact ih (fun t ht => h t (by simp [ht])) _
+
+/-- before the fix the accumulation was a raw `+=`: two tuples of 16384 units at scalar 1.0 -/
+theorem cvarAccumPreFix_traps_at : cvarAccumPreFix [(16384, 65536), (16384, 65536)] 0 = none := by
+  decide
+example : cvarAccum [(16384, 65536), (16384, 65536)] 0 = some (-2147483648) := by decide
+
+/-- `HintInstance::setup`: `base as i32 * 64 + to_f26dot6(delta)` — both summands are below 2^21
+in magnitude — then the scale multiplication. -/
+theorem cvtSetup_no_trap (base acc scale : Int) (hb : I16 base) (ha : I32 acc) (hs : I32 scale) :
+    (cvtSetup base acc scale).isSome := by
+  unfold I16 at hb; unfold I32 at ha hs
+  have hw := wrap_i32_range (acc + 512)
+  have h1 : fxToF26Dot6 acc = some (i32.wrap (acc + 512) / 1024) := by
+    simp only [fxToF26Dot6, IntTy.wrappingAdd]; exact shr_some i32 _ 10 (by decide)
+  have hc : i32.cast base = base := by simp only [IntTy.cast]; apply wrap_i32_id; omega
+  have h2 : i32.mul (i32.cast base) 64 = some (base * 64) := by
+    simp only [hc, IntTy.mul]; apply chk_i32; omega
+  generalize i32.wrap (acc + 512) = w at hw h1
+  have h3 : i32.add (base * 64) (w / 1024) = some (base * 64 + w / 1024) := by
+    simp only [IntTy.add]; apply chk_i32; omega
+  have h4 : i32.shr scale 6 = some (scale / 64) := shr_some i32 scale 6 (by decide)
+  obtain ⟨m, hm⟩ := Option.isSome_iff_exists.mp
+    (fxMul_no_trap (base * 64 + w / 1024) (scale / 64) (by unfold I32; omega) (by unfold I32; omega))
+  simp [cvtSetup, h1, h2, h3, h4, hm]
+
+/-! ## klippa/src/glyf_loca.rs -/
+
+theorem paddedSize_eq (len : Int) (h : 0 ≤ len ∧ len ≤ 18446744073709551614) :
+    paddedSize len = some (len + len % 2) := by
+  have hr : usize.rem len 2 = some (len % 2) := by
+    simp only [IntTy.rem]; rw [if_neg (by omega), if_neg (by omega)]
+    rw [Int.tmod_eq_emod_of_nonneg h.1]
+  have ha : usize.add len (len % 2) = some (len + len % 2) := by
+    simp only [IntTy.add]; apply chk_usize; omega
+  simp [paddedSize, hr, ha]
+/-- `usize::MAX` is odd: padding it overflows — no slice has that length. -/
+theorem paddedSize_traps_at : paddedSize 18446744073709551615 = none := by decide
+
+/-- the loca offsets are u32: no trap as long as the (padded) glyph data fits in 4 GiB — which
+`write_glyf_loca` does not check.  Long format: -/
+theorem locaLong_no_trap (lens : List Int) (offset : Int) (hl : ∀ l ∈ lens, 0 ≤ l ∧ l ≤ 4294967295)
+    (ho : 0 ≤ offset) (hsum : offset + lens.sum ≤ 4294967295) : (locaLong lens offset).isSome := by
+  induction lens generalizing offset with
+  | nil => rfl
+  | cons l rest ih =>
+    have hl0 := hl l (by simp)
+    simp only [List.sum_cons] at hsum
+    have hrs : 0 ≤ rest.sum := by
+      clear ih hsum
+      induction rest with
+      | nil => simp
+      | cons a r ih2 =>
+        have := hl a (by simp)
+        have := ih2 (fun x hx => hl x (by
+          simp only [List.mem_cons] at hx ⊢
+          rcases hx with hx | hx
+          · exact Or.inl hx
+          · exact Or.inr (Or.inr hx)))
+        simp only [List.sum_cons]; omega
+    have hc : u32.cast l = l := by simp only [IntTy.cast]; apply wrap_u32_id; omega
+    have h1 : u32.add offset (u32.cast l) = some (offset + l) := by
+      simp only [hc, IntTy.add]; apply chk_u32; omega
+    obtain ⟨r, hr⟩ := Option.isSome_iff_exists.mp
+      (ih (offset + l) (fun x hx => hl x (by simp [hx])) (by omega) (by omega))
+    simp [locaLong, h1, hr]
+/-- witness: 4 GiB of glyph data (model level only: replaying it needs > 4 GiB of memory). -/
+theorem locaLong_traps_at : locaLong [4294967295, 1] 0 = none := by decide
+theorem locaShort_traps_at : locaShort [4294967294, 2] 0 = none := by decide
+example : locaShort [3, 5, 0, 131054] 0 = some [2, 5, 5, 65532] := by decide
+
 end FontVerif.C20
